@@ -39,8 +39,12 @@ def tree(depth):
                      st.lists(st.tuples(BYTES_STR, sub), max_size=5).map(lambda kv: {"t": "map", "v": [{"k": k, "e": e} for k, e in kv]}))
 
 
+POISON = [None, None, '"trunc', '{"k": "abc', '"\\u12', '[1, "x', '{"key', '"a\\', "[", "nul", '{"a" "b"}']
+
+
 def strategy():
-    return st.fixed_dictionaries({"tree": tree(4)})
+    # "poison": a text that from_json rejects, parsed on the same engine/thread just before the round trip (state must not leak between calls)
+    return st.fixed_dictionaries({"tree": tree(4), "poison": st.sampled_from(POISON)})
 
 
 def tree_depth(t):
@@ -76,7 +80,11 @@ def check(c, ctx):
     t = c["tree"]
     if tree_depth(t) >= 3 or needs_escape(t):
         ctx.nontrivial(repr(t))
-    r = ctx.request({"cmd": "c18", "id": _engine(ctx), "tree": t})
+    rq = {"cmd": "c18", "id": _engine(ctx), "tree": t}
+    if c.get("poison"):
+        rq["poison"] = c["poison"]
+        ctx.classify("poisoned", "yes")
+    r = ctx.request(rq)
     ctx.sample({"value": r.get("orig", "")[:200], "json": r.get("json", "")[:200]}, limit=2)
     if "exc" in r:
         raise Violation("%s raised %s (%s) for value %s" % (r["stage"], r["exc"].get("kind"), r["exc"].get("what"), r["orig"][:300]), {"reply": r})
@@ -103,6 +111,10 @@ def nest_cases(depths):
         cases.append(("mixed/%d/balanced" % n, '[{"k":' * n + "null" + "}]" * n))
         cases.append(("mixed/%d/open" % n, '[{"k":' * n))
         cases.append(("strings/%d" % n, "[" + ",".join('"%d"' % i for i in range(min(n, 20000))) + "]"))
+        cases.append(("keypos_array/%d" % n, "{[" * n))                 # nesting through the key position of objects
+        cases.append(("keypos_object/%d" % n, "{" * n))
+        cases.append(("keypos_mixed/%d" % n, '{"a":{[' * n))
+        cases.append(("array_of_objects/%d" % n, '[{"a":[' * n))
     return cases
 
 
